@@ -51,8 +51,14 @@ def run(ctx):
             newc = b.calls(r"BlueprintId::new$")
             pk_ok = False
             for nb, nt in newc:
-                pn = origin_names(b, nt["args"][0], deep=True)
-                pk_ok = pk_ok or (any(re.search(ACTOR + "blueprint_id$", x) for x in pn) and not any(x.startswith("param:") or x.startswith("const:") for x in pn))
+                # package operand = actor.blueprint_id().map(|b| b.package_address).ok_or(..)?  (shallow chain, one closure hop)
+                ats = b.origins(nt["args"][0])
+                pn = {f"{a.kind}:{a.what}" for a in ats}
+                hop = [a for a in ats if a.kind == "call" and mir.DERIVED_THROUGH.match(a.what)]
+                srcs = set().union(*[origin_names(b, a.extra["args"][0]) for a in hop]) if hop else set()
+                via_actor = any(re.search(ACTOR + "blueprint_id$", x) for x in srcs) and \
+                    all(re.search(ACTOR + "blueprint_id$", x) or mir.DERIVED_THROUGH.match(x[5:]) for x in srcs)
+                pk_ok = pk_ok or (via_actor and not any(x.startswith("param:") or x.startswith("const:") for x in pn))
             ctx.ob("new_object|package-from-actor", ok and pk_ok,
                    f"blueprint id passed to new_object_internal originates from {sorted(names)}; package operand from actor: {pk_ok}", b.loc(bb))
     else:
